@@ -4,7 +4,18 @@ package actions
 // /repo): the yield hook used by the lock-site instrumentation, and read access to the
 // in-memory waiter registry for the C09 "no waiter notified" oracle.
 
+import (
+	"context"
+
+	"github.com/google/uuid"
+
+	"go.6river.tech/mmmbbb/ent"
+)
+
 var VerifYield func()
+
+// VerifStreamAckNack is set by the optional overlay file actions_zz_verif_stream.go.
+var VerifStreamAckNack func(ctx context.Context, client *ent.Client, subID uuid.UUID, subName string, ack, nack []uuid.UUID) error
 
 func verifYield() {
 	if f := VerifYield; f != nil {
